@@ -60,6 +60,7 @@ structure Handle where
   closing : Bool := false
   closed : Bool := false
   ref : Bool := true         -- UV_HANDLE_REF (uv_ref / uv_unref)
+  cb : Nat := 0              -- identity of handle->signal_cb (which user callback is installed)
   gen : Nat := 0             -- ghost: incarnation
 deriving DecidableEq, Repr
 
@@ -90,6 +91,7 @@ structure S where
   closingQ : Nat → List Nat := fun _ => []
   trace : List Cb := []
   ncb : Nat := 0
+  cbLog : List Nat := []     -- which callback each `Cb.signal` of `trace` invoked (newest first)
   delivered : Nat → Bool := fun _ => false
   stale : Bool := false
 
@@ -128,10 +130,13 @@ def sigStop (s : S) (h : Nat) : S :=
 def pendingSame (s : S) (h sig : Nat) : Bool :=
   (s.pipes (s.hs h).loop).any (fun m => m.h = h && m.sig = sig)
 
+/-- `handle->signal_cb = signal_cb` -/
+def setCb (s : S) (h cb : Nat) : S := { s with hs := upd s.hs h { s.hs h with cb := cb } }
+
 /-- `uv__signal_start` (signal.c:369-432); result = return value -/
-def sigStart (s : S) (h sig : Nat) (oneshot : Bool) : S × Int :=
+def sigStart (s : S) (h sig : Nat) (oneshot : Bool) (cb : Nat) : S × Int :=
   if sig = 0 then (s, -22) else
-  if sig = (s.hs h).signum then (s, 0) else           -- 391-394: only the callback is replaced
+  if sig = (s.hs h).signum then (setCb s h cb, 0) else  -- 391-394: only the callback is replaced
   let s := sigStop s h                                  -- 397-399 (no-op when not started)
   let needReg := match firstHandle s.tree sig with     -- 407-409
     | none => true
@@ -139,7 +144,7 @@ def sigStart (s : S) (h sig : Nat) (oneshot : Bool) : S × Int :=
   if needReg && !sigValid sig then (s, -22) else      -- 410-415
   let s := if needReg then register s sig oneshot else s
   let H := s.hs h
-  let H' := { H with signum := sig, oneshot := oneshot, gen := H.gen + 1 }   -- 418-422
+  let H' := { H with signum := sig, oneshot := oneshot, gen := H.gen + 1, cb := cb }   -- 418-422, 428
   ({ s with hs := upd s.hs h H', tree := treeInsert (keyOf h H') s.tree,
             stale := s.stale || pendingSame s h sig }, 0)
 
@@ -151,8 +156,8 @@ def uvClose (s : S) (h : Nat) : S :=
            closingQ := upd s.closingQ H.loop (h :: s.closingQ H.loop) }
 
 inductive Op
-  | start (h sig : Nat)
-  | oneshot (h sig : Nat)
+  | start (h sig : Nat) (cb : Nat := 0)
+  | oneshot (h sig : Nat) (cb : Nat := 0)
   | stop (h : Nat)
   | close (h : Nat)
   | ref (h : Nat)
@@ -160,7 +165,7 @@ inductive Op
 deriving DecidableEq, Repr
 
 def Op.handle : Op → Nat
-  | .start h _ | .oneshot h _ | .stop h | .close h | .ref h | .unref h => h
+  | .start h _ _ | .oneshot h _ _ | .stop h | .close h | .ref h | .unref h => h
 
 /-- `uv_ref` / `uv_unref`: only the flag (the `active_handles` counter is derived, see `alive`) -/
 def setRef (s : S) (h : Nat) (r : Bool) : S := { s with hs := upd s.hs h { s.hs h with ref := r } }
@@ -171,8 +176,8 @@ def applyOp (s : S) (o : Op) : S × Option Int :=
   match o with
   | .ref h => if (s.hs h).closed then (s, none) else (setRef s h true, some 0)
   | .unref h => if (s.hs h).closed then (s, none) else (setRef s h false, some 0)
-  | .start h sig => if (s.hs h).closing then (s, none) else let r := sigStart s h sig false; (r.1, some r.2)
-  | .oneshot h sig => if (s.hs h).closing then (s, none) else let r := sigStart s h sig true; (r.1, some r.2)
+  | .start h sig cb => if (s.hs h).closing then (s, none) else let r := sigStart s h sig false cb; (r.1, some r.2)
+  | .oneshot h sig cb => if (s.hs h).closing then (s, none) else let r := sigStart s h sig true cb; (r.1, some r.2)
   | .stop h => if (s.hs h).closing then (s, none) else (sigStop s h, some 0)
   | .close h => if (s.hs h).closing then (s, none) else (uvClose s h, some 0)
 
@@ -216,7 +221,8 @@ abbrev Script := Nat → List Op
 def dispatchMsg (sc : Script) (s : S) (L : Nat) (m : Msg) : S :=
   let H := s.hs m.h
   let s := if m.sig = H.signum then
-      runOps { s with trace := .signal m.h m.sig L m.gen H.gen :: s.trace, ncb := s.ncb + 1 } (sc s.ncb)
+      runOps { s with trace := .signal m.h m.sig L m.gen H.gen :: s.trace, ncb := s.ncb + 1,
+                      cbLog := H.cb :: s.cbLog } (sc s.ncb)   -- handle->signal_cb(handle, signum)
     else s
   let H := s.hs m.h
   let s := { s with hs := upd s.hs m.h { H with dispatched := H.dispatched + 1 } }
